@@ -13,6 +13,22 @@ def main(argv=None):
     if a.seed is not None:
         os.environ["VERIF_SEED"] = str(a.seed)
     prop = a.prop.upper()
+    # safety net: a check must never hang for ever (code under test that spins is caught by the checks' own watchdogs
+    # where it is expected; this one only stops the whole run and says so)
+    import faulthandler, signal
+
+    budget = int(os.environ.get("VERIF_WALL_BUDGET_S", "3600" if a.tier == "quick" else "21600"))
+
+    def _too_long(sig, frm):
+        faulthandler.dump_traceback(file=sys.stderr)
+        print(f"MACHINERY-ERROR property={prop}: the check did not finish within {budget} s of CPU time (stack above)", file=sys.stderr)
+        sys.stderr.flush()
+        sys.stdout.flush()
+        os._exit(common.EXIT_MACHINERY)
+
+    if hasattr(signal, "SIGVTALRM"):
+        signal.signal(signal.SIGVTALRM, _too_long)
+        signal.setitimer(signal.ITIMER_VIRTUAL, budget)      # CPU time of this process (TLC runs in child processes with their own timeouts)
     try:
         common.use_repo()
         mod = importlib.import_module("checks." + prop.lower())
